@@ -7,6 +7,7 @@
 #include <thread>
 
 #include "rkcommon/tasking/parallel_for.h"
+#include "rkcommon/tasking/schedule.h"
 #include "rkcommon/tasking/tasking_system_init.h"
 #ifdef RKCOMMON_TASKING_INTERNAL
 #include "rkcommon/verif/hooks.h"
@@ -98,6 +99,21 @@ static void runSeq(const Seq &s, long k)
 #endif
   int before      = numTaskingThreads();
   VH_CHECK(before == 0, "C13:numTaskingThreads:before-init", "numTaskingThreads() == " + std::to_string(before) + " before any initialisation (expected 0)", ctx);
+  // every third process uses the tasking system before it initialises it (a loop and a scheduled task): the report
+  // stays 0 until initTaskingSystem is called, whatever the backend started on its own
+  if (k % 3 == 1) {
+    std::atomic<int> ran(0);
+    parallel_for(64, [&](int) { ran.fetch_add(1); });
+    std::atomic<int> *pr = &ran;
+    schedule([pr]() { pr->fetch_add(1000); });
+    double t0 = vh::now();
+    while (ran.load() < 1064 && vh::now() - t0 < 30.0)
+      std::this_thread::sleep_for(std::chrono::microseconds(200));
+    int still = numTaskingThreads();
+    VH_CHECK(ran.load() == 1064, "C13:parallel_for:before-init:not-executed", "a loop / task issued before initTaskingSystem did not run completely (" + std::to_string(ran.load()) + " of 1064)", ctx);
+    VH_CHECK(still == 0, "C13:numTaskingThreads:before-init", "numTaskingThreads() == " + std::to_string(still) + " after a loop and a task were run but before any initTaskingSystem (expected 0)", ctx);
+    vh::count("processes_that_used_tasking_before_init");
+  }
   int prevLimit = 0;
   for (size_t i = 0; i < s.inits.size(); ++i) {
     int n = s.inits[i];
